@@ -7,6 +7,7 @@ P = 'photutils/psf/photometry.py::PSFPhotometry'
 
 def register(reg):
     register_flags(reg)
+    register_localbkg(reg)
     reg.record('PSFPhotometryOrder', {'_group_results': ('dict', {'ungroup_indices': ('seq', 'int')})})
     idx = "self._group_results['ungroup_indices']"
     reg.add(Contract(
@@ -72,3 +73,52 @@ def register_flags(reg):
                  ("flags[index] += 2", "flags[index] += 1"),
                  ("if row['npixfit'] < np.prod(self.fit_shape):", "if row['npixfit'] <= np.prod(self.fit_shape):")],
     ))
+
+
+def register_localbkg(reg):
+    """C12 "local-background settings ... masks": LocalBackground.__call__ estimates the
+    background of position k from the annulus values of *the caller's data under the caller's
+    mask* (apvalues_ names ApertureMask.get_values for a mask object, a data array and a mask
+    array -- by identity; bkgest_ the configured estimator), one value per position, in order."""
+    L = 'photutils/background/local_background.py::LocalBackground'
+    reg.record('ApertureMaskToken', {'idx': 'int'}, bases=('ApertureMaskValues',))
+    reg.record('ApertureMaskValues', {'idx': 'int'})
+    reg.add(Contract(
+        target='photutils/aperture/mask.py::ApertureMaskValues.get_values', props=['C12'],
+        kind='method',
+        params={'self': 'ApertureMaskValues', 'data': ('arr', 2, 'real'),
+                'mask': ('opt', ('arr', 2, 'bool'))},
+        defaults={'mask': None},
+        ensures=[('names-the-values', 'result == apvalues_(self.idx, id_(data), id_(mask))')],
+        returns='real', assumed=True,
+        note='apvalues_ names what ApertureMask.get_values returns for this mask object, data '
+             'array and mask array (its meaning is the business of the C02 contracts)',
+    ))
+    reg.record('AnnulusToken', {'positions': None})
+    reg.add(Contract(
+        target='photutils/aperture/circle.py::AnnulusToken.to_mask', props=['C12'], kind='method',
+        params={'self': 'AnnulusToken', 'method': 'str'},
+        ensures=[], returns=('seq', 'ApertureMaskToken'), assumed=True,
+        note='CircularAnnulus.to_mask returns one mask object per position (only their '
+             'identities are used here)',
+    ))
+    reg.record('LocalBackground', {'bkg_estimator': ('ufunc', 'bkgest', 1),
+                                   '_aperture': 'AnnulusToken'})
+    for tag, mspec in (('mask', ('arr', 2, 'bool')), ('nomask', ('const', None))):
+        reg.add(Contract(
+            target=f'{L}.__call__', props=['C12'], kind='method', tag='data-flow-' + tag,
+            block=('x', 'values'),
+            params={'self': 'LocalBackground', 'x': ('seq', 'real'), 'y': ('seq', 'real'),
+                    'data': ('arr', 2, 'real', 'nonfinite'), 'mask': mspec},
+            requires=['len(x) == len(y)'],
+            ensures=[('one-per-position', 'len(bkg) == len(apermasks)'),
+                     ('estimator-of-the-annulus-values-of-the-callers-data-under-the-callers-mask',
+                      'forall(lambda k: bkg[k] == bkgest_(apvalues_(apermasks[k].idx, '
+                      'id_(data_input), id_(%s))), (0, len(bkg)))'
+                      % ('mask_input' if tag == 'mask' else 'old_mask'))],
+            mutants=[('apermask.get_values(data, mask=mask)', 'apermask.get_values(data)'),
+                     ('apermask.get_values(data, mask=mask)', 'apermask.get_values(data, mask=~mask)'),
+                     ('apermask.get_values(data, mask=mask)', 'apermask.get_values(data * 1, mask=mask)')]
+            if tag == 'mask' else
+                    [('apermask.get_values(data, mask=mask)', 'apermask.get_values(data + 0, mask=mask)')],
+        ))
